@@ -42,7 +42,7 @@ META = dict(
     note='The coder (re-packing of the reduced columns by the encoder and its decoding) is not modelled here; that part of C10 '
          'is observed on the implementation only (oracle) and is covered by the coder properties C01-C05.')
 
-QUICK_MAX_BYTES = 50000
+QUICK_MAX_BYTES = 30000
 QUICK_FILES = 40
 
 _state = {}
@@ -705,7 +705,7 @@ def run(ctx):
     tasks = [{'src': {'file': f}, 'seed': ctx.seed, 'tier': ctx.tier} for f in files]
     rng = ctx.rng('synth')
     bases = [f for f in files if os.path.getsize(f) <= (QUICK_MAX_BYTES if ctx.tier == 'quick' else 60000)]
-    n_synth = 120 if ctx.tier == 'quick' else 3000
+    n_synth = 72 if ctx.tier == 'quick' else 3000
     for k in range(n_synth):
         f = bases[k % len(bases)] if k < len(bases) else rng.choice(bases)
         tasks.append({'src': {'file': f, 'synth': '%d:%d:%d' % (ctx.seed, k, rng.randrange(10 ** 9))}, 'seed': ctx.seed, 'tier': ctx.tier})
@@ -728,7 +728,11 @@ def run(ctx):
 
 def run_tasks(tasks):
     with multiprocessing.Pool(min(16, os.cpu_count() or 4)) as pool:
-        return pool.map(run_source, tasks, chunksize=1)
+        try:
+            # a worker that dies would make a plain map() wait forever
+            return pool.map_async(run_source, tasks, chunksize=1).get(timeout=6 * 3600)
+        except multiprocessing.TimeoutError:
+            raise core.MachineryError('worker pool did not finish')
 
 
 def replay(ctx, path):
